@@ -8,7 +8,9 @@ from exact import spec_solution
 
 RULE = ('cases = shipped example networks + saved failures, then a sample of the bounded-exhaustive stream (all connected '
         'multigraphs <=3 nodes/<=3 branches x kinds x reference node), then structured random networks (<=8 nodes/<=14 '
-        'branches, label pool interleaving kinds, dyadic and decimal values, complex with p=1/2). distinct = distinct after '
+        'branches, label pool interleaving kinds, dyadic and decimal values, complex with p=1/2), then small resistive networks whose element '
+        'values span ten decades (milli-ohm shunts, mega-ohm dividers, kV next to uA).  Besides the norm-wise comparison every unknown of the nodal '
+        'system is judged on its own scale (relative error <= 1e-6 when its componentwise condition number is <= 1e3). distinct = distinct after '
         'canonical relabelling of nodes; non-trivial = well-posed (exact tableau rank) with >=1 source and >=2 non-reference '
         'nodes')
 
@@ -17,7 +19,8 @@ TRUSTED = [
     'OCaml extraction of Model.Run.dispatch with ExtrOcamlBasic only (bool, option, unit, list, prod, sumbool, sumor); '
     'no Extract Constant / Extract Inductive of our own; 60-line hex I/O driver coq/Extract/driver.ml',
     'correspondence harness: generators, exact float->rational conversion (fractions.Fraction), tolerance rule, token codec',
-    'numpy.linalg.solve assumed backward stable on non-singular systems; nothing assumed on singular ones',
+    'numpy.linalg.solve assumed backward stable on non-singular systems; nothing assumed on singular ones; for the componentwise rule: '
+    'componentwise backward error of LAPACK gesv below 1e-9 on these small systems (measured <= 1.2e-11)',
     'Python sorted() on str = code-point lexicographic order (modelled by label_leb)',
 ]
 
@@ -53,7 +56,88 @@ def gen_cases(ctx):
         c = netgen.random_network(rng, max_nodes=8 if big else 5, max_branches=14 if big else 8,
                                   decimal=(not big and rng.random() < 0.3))
         cases.append(('random', c))
+    for k in range(300 if quick else 6000):
+        cases.append(('wide-spread', wide_spread_network(rng)))
     return cases
+
+
+WIDE_R = [1e-3, 1e-3, 1.0, 47.0, 1e3, 1e6, 1e7]
+
+
+def wide_spread_network(rng):
+    """small resistive networks whose element values span ten decades (milli-ohm shunts next to mega-ohm dividers, kilovolts next
+    to micro-amps): legitimate unknowns of very different magnitude share one solution vector"""
+    nn = rng.randint(2, 4)
+    nodes = [str(i) for i in range(nn)] if rng.random() < 0.5 else rng.sample(['0', '1', '2', 'a', 'b', 'x', '10', '9'], nn)
+    order = list(nodes)
+    rng.shuffle(order)
+    edges = [(order[i], order[rng.randrange(i)]) for i in range(1, nn)]
+    for _ in range(rng.randint(1, 3)):
+        edges.append(tuple(rng.sample(nodes, 2)))
+    rng.shuffle(edges)
+    brs = []
+    nsrc = rng.choice([1, 1, 2])
+    for k, (a, b) in enumerate(edges):
+        if k < nsrc:
+            if rng.random() < 0.5:
+                brs.append({'id': f'Vs{k}', 'n1': a, 'n2': b, 'ctor': 'voltage_source', 'args': [[rng.choice([10.0, 1e3, 12.0]), 0.0], [0.0, 0.0]]})
+            else:
+                brs.append({'id': f'Is{k}', 'n1': a, 'n2': b, 'ctor': 'current_source', 'args': [[rng.choice([5.0, 1e-6, 1e-3]), 0.0], [0.0, 0.0]]})
+        elif rng.random() < 0.15:
+            brs.append({'id': f'G{k}', 'n1': a, 'n2': b, 'ctor': 'conductor', 'args': [[1.0 / rng.choice(WIDE_R), 0.0]]})
+        else:
+            brs.append({'id': f'R{k}', 'n1': a, 'n2': b, 'ctor': 'resistor', 'args': [[rng.choice(WIDE_R), 0.0]]})
+    rng.shuffle(brs)
+    return {'zero': rng.choice(nodes), 'branches': brs}
+
+
+def componentwise(ctx, case, exact):
+    """every unknown of the nodal system (node potential, current of an ideal voltage source) on its OWN scale: entry i of the
+    implementation's solution must agree with the exact solution to 1e-6 relative whenever that entry is well conditioned
+    componentwise, kappa_i = (|A^-1| |A| |x|)_i / |x_i| <= 1e3 (Skeel).  On the unchanged code the measured error is below
+    1.2e-11 * kappa_i (6000 entries over ten decades of element values), so the margin is > 1e4.  Returns list of (key, what)."""
+    import numpy as np
+    from CircuitCalculator.Network.NodalAnalysis import node_analysis as na
+    from CircuitCalculator.Network.NodalAnalysis.bias_point_analysis import nodal_analysis_bias_point_solver
+    bad = []
+    try:
+        net = netgen.impl_network(case)
+        sol = nodal_analysis_bias_point_solver(net)
+        A = np.array(na.nodal_analysis_coefficient_matrix(net), dtype=complex)
+        xs = np.array(sol._solution_vector, dtype=complex)
+        names = {}
+        for l in net.node_labels:
+            if l != net.node_zero_label:
+                names[int(sol._node_mapping[l])] = ('phi', l)
+        nn = int(sol._node_mapping.N)
+        for vid in sol._voltage_source_mapping.keys:
+            names[nn + int(sol._voltage_source_mapping[vid])] = ('i', vid)
+        Ainv = np.linalg.inv(A)
+    except Exception as e:  # noqa: BLE001
+        ctx.count(f'componentwise:not-available({type(e).__name__})')
+        return bad
+    if A.shape[0] != len(xs) or len(names) != len(xs) or not np.all(np.isfinite(Ainv)):
+        ctx.count('componentwise:not-available(shape)')
+        return bad
+    kap = np.abs(Ainv) @ (np.abs(A) @ np.abs(xs))
+    for k, (kind, name) in names.items():
+        want = complex(exact['phi'][name]) if kind == 'phi' else complex(exact['i'][name])
+        if want == 0:
+            continue
+        ki = float(kap[k]) / abs(want)
+        if not ki <= 1e3:
+            ctx.count('componentwise:entry-ill-conditioned(skipped)')
+            continue
+        ctx.count('componentwise:entries-judged')
+        got = complex(sol.get_potential(name)) if kind == 'phi' else complex(sol.get_current(name))
+        rel = abs(got - want) / abs(want)
+        ctx.extra['componentwise_max_rel_err'] = max(ctx.extra.get('componentwise_max_rel_err', 0.0), rel)
+        if rel > 1e-6:
+            what = ('potential of node' if kind == 'phi' else 'current of voltage source')
+            bad.append(('C01:small-quantity-wrong', f'{what} {name!r}: implementation {got}, exact {want} (relative error {rel:.3g}; this unknown is '
+                        f'well conditioned on its own scale, kappa = {ki:.3g}; largest unknown {np.max(np.abs(xs)):.3g})'))
+            break
+    return bad
 
 
 def oracle(case, impl, exact, cond):
@@ -185,10 +269,19 @@ def examine(ctx, tagged):
             ctx.disagreements.append(case)
             ctx.violation('correspondence:C01-solve', 'model and implementation disagree: ' + dis[0],
                           {'network': case, 'disagreement': dis, 'impl': impl}, kind='obligation')
-        for key, what in oracle(case, impl, exact, cond):
+        found = oracle(case, impl, exact, cond)
+        if exact is not None and 'exc' not in impl:
+            found = found + componentwise(ctx, case, exact)
+        for key, what in found:
             def pred(c, key=key):
                 e = spec_solution(c)
-                return any(k == key for k, _ in oracle(c, netrun.impl_solve(c), e, netrun.mna_cond(c) if e else float('inf')))
+                if e is None:
+                    return False
+                i2 = netrun.impl_solve(c)
+                r = oracle(c, i2, e, netrun.mna_cond(c))
+                if 'exc' not in i2 and key == 'C01:small-quantity-wrong':
+                    r = r + componentwise(ctx, c, e)
+                return any(k == key for k, _ in r)
             small = netrun.shrink(case, pred)
             ctx.violation(key, what, {'network': small, 'minimised_from_branches': len(case['branches'])})
         ctx.sample({'network': case, 'impl': {k: str(v)[:200] for k, v in impl.items()}}, cap=3)
